@@ -229,9 +229,13 @@ def run_controlled(plan, losses, script, schedule, *, agent_kind="scripted", see
                             if g is not None:
                                 ctl.log({"e": "get", "cid": g["cid"], "a": g["a"], "batch": b, "sampler": idx})
                             mark = len(ctl.events)
-                            sched.update(b, np.array([[float(b)]]), np.array([float(losses[b])]), None)
+                            # a batch of 1-3 points: the batch's best loss is losses[b], the other points are worse, in any position
+                            extra = [float(losses[b]) * k for k in ((), (2,), (4, 2))[(b + seed) % 3]] if losses[b] > 0 else []
+                            ls = extra[:1] + [float(losses[b])] + extra[1:]
+                            ctl.ghost["bmin"] = int(losses[b])
+                            sched.update(b, np.array([[float(b) + 0.25 * i] for i in range(len(ls))]), np.array(ls), None)
                             if not any(e["e"] == "out" for e in ctl.events[mark:]):
-                                ctl.log({"e": "boot", "batch": b, "best": int(losses[b])})
+                                ctl.log({"e": "boot", "batch": b, "best": int(losses[b]), "bmin": int(losses[b])})
                             b += 1
                     dr = ctl.ghost.pop("drained", 0)
                     if dr:
